@@ -252,8 +252,15 @@ def normalize_rvs(dist, rvs, crvs, rv_mode):
     if dist.is_joint():
         if rvs is None:
             # Set so that each random variable is its own group.
-            rvs = [[i] for i in range(dist.outcome_length())]
-            rv_mode = RV_MODES.INDICES
+            names = dist.get_rv_names()
+            mode = RV_MODES[dist._rv_mode if rv_mode is None else rv_mode]
+            if crvs and names is not None and mode == RV_MODES.NAMES:
+                # `crvs` is given by name: group by name too, so that one
+                # `rv_mode` describes both.
+                rvs = [[name] for name in names]
+            else:
+                rvs = [[i] for i in range(dist.outcome_length())]
+                rv_mode = RV_MODES.INDICES
         if crvs is None:
             crvs = []
         else:
